@@ -50,6 +50,7 @@ def run(prog, chk):
     # the send backlog lives in a Buffer: a window that leaves its allocation or loses its start loses or duplicates pending bytes
     from . import lin_buffer, c08
     lin_buffer.run(prog, chk, c08.methods(prog), rid="C13.i")
+    send_reports_accepted_bytes(prog, chk, "C13.j")
     chk.rule("C13.h", "ORD: when the interest set of a socket shrinks (suspend), Poll::set prunes the removed flags from the events already "
                       "buffered from the current epoll_wait round, computing them from the registered flags before these are overwritten", floor=1)
     from . import c14
@@ -340,3 +341,43 @@ def run(prog, chk):
                         "`%s` is used after `%s` returned: the callback may have removed the client (use after free), and what it registered is overwritten" % (nm, run_.r(call)[:40]))
     else:
         chk.ok("C13.g", run_, "no client is touched after one of its callbacks", "%s:%s" % (run_.file, run_.line), "%d callback sites" % len(callback_calls(run_)), evals=len(callback_calls(run_)))
+
+
+def send_reports_accepted_bytes(prog, chk, rid):
+    """Socket::send is the only witness of how many bytes the operating system took: whatever sequence of outcomes the primitive
+    produces inside one call, a positive total must be returned (the caller buffers exactly the rest)."""
+    chk.rule(rid, "FIN: Socket::send evaluated over outcome sequences of ::send (full; partial then would-block / error / partial; would-block; "
+                  "error): it returns the number of bytes accepted so far whenever that number is positive, -1 only when nothing was accepted", floor=1)
+    f = sfn(prog, "Socket::send")
+    prims = [c for c in q.calls(f) if f.nodes[c].get("callee") == "send"]
+    if not prims or len(f.params) < 2:
+        raise AnalysisBroken("Socket::send: the ::send primitive or the size parameter was not found")
+    size_n = f.params[1]["n"]
+    SIZE = 100
+    scen = [("one full send", [SIZE], 0, SIZE), ("a partial send", [40, -1], 11, 40), ("a partial send, then would-block", [40, -1, -1], 11, 40),
+            ("a partial send, then an error", [40, -1, -1], 32, 40), ("two partial sends, then would-block", [40, 30, -1, -1], 11, 70),
+            ("would-block at once", [-1, -1], 11, -1), ("an error at once", [-1, -1], 104, -1)]
+    bad = None
+    n_ev = 0
+    for what, outs, err, want in scen:
+        val = {size_n: SIZE, "*__errno_location()": err}
+        seq = {fin.key(f, c): list(outs) for c in prims}
+        seen, end, fv = fin.walk_vals(f, f.entry, val, seq=seq)
+        n_ev += 1
+        if isinstance(end, str):
+            bad = (what, "the result depends on something else (%s)" % end)
+            break
+        got = fin.eval_expr(f, f.nodes[end]["c"][0], fv) if f.nodes[end]["c"] else None
+        calls_made = sum(1 for e in seen if e in prims)
+        taken = sum(x for x in outs[:calls_made] if x > 0)
+        expect = taken if taken > 0 else -1
+        if got != expect:
+            bad = (what, "after %d call(s) of ::send that accepted %d byte(s) it returns %s, required %d" % (calls_made, taken, got, expect))
+            break
+    where = "%s:%s" % (f.file, f.line)
+    if bad:
+        chk.bad(rid, f, "accepted-bytes-not-reported", where,
+                "Socket::send with %s: %s - the caller buffers the whole data again (or treats the connection as failed), the peer receives "
+                "the accepted prefix twice" % bad, evals=n_ev)
+    else:
+        chk.ok(rid, f, "send returns what was accepted, -1 only when nothing was", where, "%d outcome sequences evaluated" % n_ev, evals=n_ev)
